@@ -192,6 +192,8 @@ def extra(ctx):
                 classes[k] = classes.get(k, 0) + 1
     for fid, seen in known_seen.items():
         known.append(f"{fid}: {open_findings[fid]['what']} [{len(seen)} cases, e.g. {seen[0]}]")
+    # crashes first: they are the property's failures, the verdict mismatches only announce them
+    fails.sort(key=lambda d: 0 if any("child process died" in b or "no progress within" in b for b in d.get("failed", [])) else 1)
     failures = []
     complete = len(ctx["cases"]) >= 600  # a replay of one case (--only) does not run the families
     if complete and not fails:
